@@ -3,6 +3,8 @@
   Property theorems only; helper lemmas live in Proofs/.
 -/
 import MqttVerif.Proofs.Codec
+import MqttVerif.Proofs.CodecRoundtrip
+import MqttVerif.Model.Api
 
 namespace Mqtt.C05
 
@@ -57,5 +59,278 @@ theorem rl_overflow (n : Nat) (h : 268435455 < n) : remainingLength n = .panic :
 -- non-vacuity: the hypotheses are met at every boundary
 example : remainingLength 2097152 = .ok [0x80, 0x80, 0x80, 0x01] := by decide
 example : Spec.decodeVarInt ([0x80, 0x80, 0x80, 0x01] ++ [7]) = some (2097152, [7]) := by decide
+
+/-! ## Whole packets -/
+
+/-- Framing: whatever `pack` emits for a body within the protocol maximum decodes, under the
+    standard's fixed-header rules, to what the body decodes to; trailing bytes are untouched. -/
+theorem pack_roundtrip (t : Nat) (cs : List Bytes) (hl : cs.flatten.length ≤ 268435455) (rest : Bytes) :
+    ∃ bs, pack t cs = .ok bs ∧
+      Spec.decode (bs ++ rest) = (Spec.decodeBody (t / 16) (t % 16) cs.flatten).map (fun p => (p, rest)) := by
+  obtain ⟨rl, hrl, hdec⟩ := rl_roundtrip cs.flatten.length hl (cs.flatten ++ rest)
+  exact ⟨_, pack_of_rl t cs rl hrl, decode_frame t rl cs.flatten rest hdec⟩
+
+/-! ### PUBLISH -/
+
+/-- body length of a PUBLISH -/
+def publishBodyLen (m : Message) : Nat :=
+  2 + m.topic.length + (if m.qos = 0 then 0 else 2) + m.payload.length
+
+theorem publish_roundtrip (m : Message) (hq : m.qos ≤ 2) (ht : m.topic.length ≤ 65535)
+    (hid : m.qos ≠ 0 → 0 < m.id ∧ m.id < 65536) (hl : publishBodyLen m ≤ 268435455) (rest : Bytes) :
+    ∃ bs, packPublish m = .ok bs ∧
+      Spec.decode (bs ++ rest) =
+        some (.publish m.topic m.payload m.qos m.retain m.dup (if m.qos = 0 then none else some m.id), rest) := by
+  obtain ⟨h, hh, h16, hqos, hret, hdup⟩ := publishHeaderByte_ok m hq
+  have hlen : ([u16be m.topic.length ++ (m.topic ++ (if m.qos = 0 then [] else u16be m.id)),
+      m.payload] : List Bytes).flatten.length ≤ 268435455 := by
+    rw [publish_flatten, publishBody_length]; exact hl
+  obtain ⟨bs, hbs, hdec⟩ := pack_roundtrip h _ hlen rest
+  refine ⟨bs, by rw [packPublish_eq m h hh ht, hbs], ?_⟩
+  rw [hdec, publish_flatten, h16, decodeBody_publish _ m hq hqos ht hid, hret, hdup]
+  rfl
+
+/-- `pktPublish.Pack` panics exactly on an invalid QoS, an over-long topic, or a body beyond the
+    protocol maximum (it never returns an error). -/
+theorem publish_panics_iff (m : Message) :
+    packPublish m = .panic ↔ (m.qos > 2 ∨ m.topic.length > 65535 ∨ publishBodyLen m > 268435455) := by
+  have e : packPublish m = (publishHeaderByte m).bind (fun h => (appendString [] m.topic).bind
+      (fun header => pack h [if m.qos ≠ 0 then appendUint16 header m.id else header, m.payload])) := rfl
+  by_cases hq : m.qos ≤ 2
+  · by_cases ht : m.topic.length ≤ 65535
+    · obtain ⟨h, hh, -⟩ := publishHeaderByte_ok m hq
+      rw [packPublish_eq m h hh ht, pack_panic_iff, publish_flatten, publishBody_length]
+      unfold publishBodyLen
+      omega
+    · obtain ⟨h, hh, -⟩ := publishHeaderByte_ok m hq
+      have : packPublish m = .panic := by
+        rw [e, hh, appendString_panic _ _ (by omega)]; rfl
+      simp only [this, true_iff]
+      omega
+  · have : packPublish m = .panic := by
+      rw [e, publishHeaderByte_panic m (by omega)]; rfl
+    simp only [this, true_iff]
+    omega
+
+-- non-vacuity: QoS 1, retained, id 0x1234, topic "a/b", payload [1,2,3], followed by other bytes
+example :
+    packPublish { topic := [0x61, 0x2F, 0x62], id := 0x1234, qos := 1, retain := true, dup := false,
+                  payload := [1, 2, 3] }
+      = .ok [0x33, 10, 0, 3, 0x61, 0x2F, 0x62, 0x12, 0x34, 1, 2, 3] := by decide
+example : Spec.decode ([0x33, 10, 0, 3, 0x61, 0x2F, 0x62, 0x12, 0x34, 1, 2, 3] ++ [0xC0, 0]) =
+    some (.publish [0x61, 0x2F, 0x62] [1, 2, 3] 1 true false (some 0x1234), [0xC0, 0]) := by decide
+example : packPublish { topic := [], id := 0, qos := 3, retain := false, dup := false, payload := [] }
+    = .panic := by decide
+
+/-! ### PUBACK / PUBREC / PUBREL / PUBCOMP, PINGREQ, DISCONNECT -/
+
+theorem puback_roundtrip (id : Nat) (h : 0 < id ∧ id < 65536) (rest : Bytes) :
+    ∃ bs, packPubAck id = .ok bs ∧ Spec.decode (bs ++ rest) = some (.puback id, rest) := by
+  obtain ⟨bs, hbs, hdec⟩ := pack_roundtrip packetPubAck [packUint16 id] (by simp [packUint16_eq]) rest
+  refine ⟨bs, hbs, ?_⟩
+  have h0 : id ≠ 0 := by omega
+  rw [hdec]
+  simp [packUint16_eq, packetPubAck, Spec.decodeBody, decodeU16_id id h.2, h0]
+
+theorem pubrec_roundtrip (id : Nat) (h : 0 < id ∧ id < 65536) (rest : Bytes) :
+    ∃ bs, packPubRec id = .ok bs ∧ Spec.decode (bs ++ rest) = some (.pubrec id, rest) := by
+  obtain ⟨bs, hbs, hdec⟩ := pack_roundtrip packetPubRec [packUint16 id] (by simp [packUint16_eq]) rest
+  refine ⟨bs, hbs, ?_⟩
+  have h0 : id ≠ 0 := by omega
+  rw [hdec]
+  simp [packUint16_eq, packetPubRec, Spec.decodeBody, decodeU16_id id h.2, h0]
+
+theorem pubrel_roundtrip (id : Nat) (h : 0 < id ∧ id < 65536) (rest : Bytes) :
+    ∃ bs, packPubRel id = .ok bs ∧ Spec.decode (bs ++ rest) = some (.pubrel id, rest) := by
+  obtain ⟨bs, hbs, hdec⟩ :=
+    pack_roundtrip (packetPubRel ||| packetFromClient) [packUint16 id] (by simp [packUint16_eq]) rest
+  refine ⟨bs, hbs, ?_⟩
+  have h0 : id ≠ 0 := by omega
+  rw [hdec]
+  simp [packUint16_eq, packetPubRel, packetFromClient, Spec.decodeBody, decodeU16_id id h.2, h0]
+
+theorem pubcomp_roundtrip (id : Nat) (h : 0 < id ∧ id < 65536) (rest : Bytes) :
+    ∃ bs, packPubComp id = .ok bs ∧ Spec.decode (bs ++ rest) = some (.pubcomp id, rest) := by
+  obtain ⟨bs, hbs, hdec⟩ := pack_roundtrip packetPubComp [packUint16 id] (by simp [packUint16_eq]) rest
+  refine ⟨bs, hbs, ?_⟩
+  have h0 : id ≠ 0 := by omega
+  rw [hdec]
+  simp [packUint16_eq, packetPubComp, Spec.decodeBody, decodeU16_id id h.2, h0]
+
+theorem pingreq_roundtrip (rest : Bytes) :
+    ∃ bs, packPingReq = .ok bs ∧ Spec.decode (bs ++ rest) = some (.pingreq, rest) := by
+  obtain ⟨bs, hbs, hdec⟩ := pack_roundtrip packetPingReq [] (by simp) rest
+  refine ⟨bs, hbs, ?_⟩
+  rw [hdec]
+  simp [packetPingReq, Spec.decodeBody]
+
+theorem disconnect_roundtrip (rest : Bytes) :
+    ∃ bs, packDisconnect = .ok bs ∧ Spec.decode (bs ++ rest) = some (.disconnect, rest) := by
+  obtain ⟨bs, hbs, hdec⟩ := pack_roundtrip packetDisconnect [] (by simp) rest
+  refine ⟨bs, hbs, ?_⟩
+  rw [hdec]
+  simp [packetDisconnect, Spec.decodeBody]
+
+-- non-vacuity
+example : packPubRel 0xABCD = .ok [0x62, 2, 0xAB, 0xCD] := by decide
+example : Spec.decode ([0x62, 2, 0xAB, 0xCD] ++ [9]) = some (.pubrel 0xABCD, [9]) := by decide
+example : Spec.decode ((match packPubAck 65535 with | .ok b => b | _ => []) ++ [9]) =
+    some (.puback 65535, [9]) := by decide
+example : Spec.decode (match packPingReq with | .ok b => b | _ => []) = some (.pingreq, []) := by decide
+example : Spec.decode (match packDisconnect with | .ok b => b | _ => []) = some (.disconnect, []) := by decide
+
+/-! ### SUBSCRIBE / UNSUBSCRIBE -/
+
+def subsBodyLen (subs : List Subscription) : Nat := 2 + (subs.map (fun s => 3 + s.topic.length)).sum
+
+theorem subscribe_roundtrip (id : Nat) (subs : List Subscription) (hid : 0 < id ∧ id < 65536)
+    (hne : subs ≠ []) (hq : ∀ s ∈ subs, s.qos ≤ 2) (ht : ∀ s ∈ subs, s.topic.length ≤ 65535)
+    (hl : subsBodyLen subs ≤ 268435455) (rest : Bytes) :
+    ∃ bs, packSubscribe id subs = .ok bs ∧
+      Spec.decode (bs ++ rest) = some (.subscribe id (subs.map fun s => (s.topic, s.qos)), rest) := by
+  have hflat : ([u16be id, subsBytes subs] : List Bytes).flatten = u16be id ++ subsBytes subs := by simp
+  have hlen : ([u16be id, subsBytes subs] : List Bytes).flatten.length ≤ 268435455 := by
+    rw [hflat, List.length_append, u16be_length, subsBytes_length]; exact hl
+  obtain ⟨bs, hbs, hdec⟩ := pack_roundtrip (packetSubscribe ||| packetFromClient) _ hlen rest
+  have e : packSubscribe id subs = (subscribePayload subs []).bind (fun payload =>
+      pack (packetSubscribe ||| packetFromClient) [packUint16 id, payload]) := rfl
+  refine ⟨bs, ?_, ?_⟩
+  · rw [e, subscribePayload_ok subs [] hq ht, packUint16_eq]
+    simpa [Res.bind] using hbs
+  · rw [hdec, hflat]
+    have : (packetSubscribe ||| packetFromClient) / 16 = 8 ∧
+        (packetSubscribe ||| packetFromClient) % 16 = 2 := by decide
+    rw [this.1, this.2, decodeBody_subscribe id subs hid hne hq ht]
+    rfl
+
+def unsubsBodyLen (ts : List Bytes) : Nat := 2 + (ts.map (fun t => 2 + t.length)).sum
+
+theorem unsubscribe_roundtrip (id : Nat) (ts : List Bytes) (hid : 0 < id ∧ id < 65536) (hne : ts ≠ [])
+    (ht : ∀ t ∈ ts, t.length ≤ 65535) (hl : unsubsBodyLen ts ≤ 268435455) (rest : Bytes) :
+    ∃ bs, packUnsubscribe id ts = .ok bs ∧
+      Spec.decode (bs ++ rest) = some (.unsubscribe id ts, rest) := by
+  have hflat : ([u16be id, filtersBytes ts] : List Bytes).flatten = u16be id ++ filtersBytes ts := by simp
+  have hlen : ([u16be id, filtersBytes ts] : List Bytes).flatten.length ≤ 268435455 := by
+    rw [hflat, List.length_append, u16be_length, filtersBytes_length]; exact hl
+  obtain ⟨bs, hbs, hdec⟩ := pack_roundtrip (packetUnsubscribe ||| packetFromClient) _ hlen rest
+  have e : packUnsubscribe id ts = (unsubscribePayload ts []).bind (fun payload =>
+      pack (packetUnsubscribe ||| packetFromClient) [packUint16 id, payload]) := rfl
+  refine ⟨bs, ?_, ?_⟩
+  · rw [e, unsubscribePayload_ok ts [] ht, packUint16_eq]
+    simpa [Res.bind] using hbs
+  · rw [hdec, hflat]
+    have : (packetUnsubscribe ||| packetFromClient) / 16 = 10 ∧
+        (packetUnsubscribe ||| packetFromClient) % 16 = 2 := by decide
+    rw [this.1, this.2, decodeBody_unsubscribe id ts hid hne ht]
+    rfl
+
+-- non-vacuity: two filters ("a" at QoS 2, "" at QoS 0), trailing bytes preserved
+example : packSubscribe 7 [⟨[0x61], 2⟩, ⟨[], 0⟩] = .ok [0x82, 9, 0, 7, 0, 1, 0x61, 2, 0, 0, 0] := by decide
+example : Spec.decode ([0x82, 9, 0, 7, 0, 1, 0x61, 2, 0, 0, 0] ++ [5]) =
+    some (.subscribe 7 [([0x61], 2), ([], 0)], [5]) := by decide
+example : packUnsubscribe 7 [[0x61], [0x62, 0x63]] = .ok [0xA2, 9, 0, 7, 0, 1, 0x61, 0, 2, 0x62, 0x63] := by decide
+example : Spec.decode ([0xA2, 9, 0, 7, 0, 1, 0x61, 0, 2, 0x62, 0x63] ++ [5]) =
+    some (.unsubscribe 7 [[0x61], [0x62, 0x63]], [5]) := by decide
+
+/-! ### CONNECT -/
+
+/-- CONNECT: flags ⇔ presence of will / user name / password, fields in order. No length hypothesis
+    is needed: the body is at most 10 + 5·65537 bytes. `up` is [MQTT-3.1.2-22], which the library
+    does not enforce (see the counterexample below). -/
+theorem connect_roundtrip (p : ConnectPkt) (hlv : p.protocolLevel < 256) (hka : p.keepAlive < 65536)
+    (hcid : p.clientID.length ≤ 65535) (hu : p.userName.length ≤ 65535) (hp : p.password.length ≤ 65535)
+    (hw : ∀ w, p.will = some w → w.qos ≤ 2 ∧ w.topic.length ≤ 65535 ∧ w.payload.length ≤ 65535)
+    (up : p.password ≠ [] → p.userName ≠ [])
+    (rest : Bytes) :
+    ∃ bs, packConnect p = .ok bs ∧
+      Spec.decode (bs ++ rest) = some (.connect p.protocolLevel p.cleanSession p.keepAlive p.clientID
+        (p.will.map fun w => (w.topic, w.payload, w.qos, w.retain))
+        (if p.userName = [] then none else some p.userName)
+        (if p.password = [] then none else some p.password), rest) := by
+  have hw' : ∀ w, p.will = some w → w.topic.length ≤ 65535 ∧ w.payload.length ≤ 65535 :=
+    fun w h => (hw w h).2
+  have hlen : ([[0x00, 0x04, 0x4D, 0x51, 0x54, 0x54, p.protocolLevel % 256, connectFlags p],
+      u16be p.keepAlive, connectPayload p] : List Bytes).flatten.length ≤ 268435455 := by
+    have := connectPayload_length_le p hcid hu hp hw'
+    simp; omega
+  obtain ⟨bs, hbs, hdec⟩ := pack_roundtrip packetConnect _ hlen rest
+  refine ⟨bs, by rw [packConnect_eq p hcid hu hp hw', hbs], ?_⟩
+  obtain ⟨f0, f1, f2, f3, f5, f6, f7⟩ := connectFlags_bits p (fun w h => (hw w h).1)
+  have hl : p.protocolLevel % 256 = p.protocolLevel := Nat.mod_eq_of_lt hlv
+  have hbody : ([[0x00, 0x04, 0x4D, 0x51, 0x54, 0x54, p.protocolLevel % 256, connectFlags p],
+      u16be p.keepAlive, connectPayload p] : List Bytes).flatten =
+      0 :: 4 :: 0x4D :: 0x51 :: 0x54 :: 0x54 :: p.protocolLevel :: connectFlags p ::
+        (u16be p.keepAlive ++ (u16be p.clientID.length ++ (p.clientID ++ (willBytes p.will ++
+          (optBytes p.userName ++ optBytes p.password))))) := by
+    simp [connectPayload, hl]
+  have ht : packetConnect / 16 = 1 ∧ packetConnect % 16 = 0 := by decide
+  rw [hdec, hbody, ht.1, ht.2]
+  have hd := decodeConnect_ok p.protocolLevel (connectFlags p) p.keepAlive p.cleanSession p.clientID
+    p.userName p.password p.will hka hcid hu hp hw up f0 f1 f2 f3 f5 f6 f7
+  simp only [Spec.decodeBody, if_true, hd]
+  rfl
+
+/-- The hypothesis `up` is necessary: with a password but no user name the library emits a CONNECT
+    that violates [MQTT-3.1.2-22] and is rejected by the standard's decoder. -/
+theorem connect_password_without_username_counterexample :
+    ∃ bs, packConnect { protocolLevel := 4, cleanSession := false, keepAlive := 60, clientID := [],
+                        userName := [], password := [0x70], will := none } = .ok bs
+      ∧ Spec.decode bs = none :=
+  ⟨[0x10, 15, 0, 4, 0x4D, 0x51, 0x54, 0x54, 4, 0x40, 0, 60, 0, 0, 0, 1, 0x70], by decide, by decide⟩
+
+-- non-vacuity: clean session, will (QoS 1, retained), user name and password, keep-alive 300
+example :
+    packConnect { protocolLevel := 4, cleanSession := true, keepAlive := 300, clientID := [0x63],
+                  userName := [0x75], password := [0x70],
+                  will := some { topic := [0x74], payload := [0x6D, 0x6E], qos := 1, retain := true } }
+      = .ok [0x10, 26, 0, 4, 0x4D, 0x51, 0x54, 0x54, 4, 0xEE, 1, 44, 0, 1, 0x63, 0, 1, 0x74, 0, 2, 0x6D, 0x6E,
+             0, 1, 0x75, 0, 1, 0x70] := by decide
+example :
+    Spec.decode ([0x10, 26, 0, 4, 0x4D, 0x51, 0x54, 0x54, 4, 0xEE, 1, 44, 0, 1, 0x63, 0, 1, 0x74, 0, 2, 0x6D, 0x6E,
+                  0, 1, 0x75, 0, 1, 0x70] ++ [1, 2])
+      = some (.connect 4 true 300 [0x63] (some ([0x74], [0x6D, 0x6E], 1, true)) (some [0x75]) (some [0x70]),
+              [1, 2]) := by decide
+
+/-! ### What `Publish` hands to the transport -/
+
+/-- Messages the protocol cannot carry are rejected before anything is written (publish.go:115-131). -/
+theorem rejected_before_write (max c : Nat) (m : Message)
+    (h : m.qos > 2 ∨ (max ≠ 0 ∧ m.payload.length ≥ max)) :
+    (publishCall max c m).written = [] ∧ (publishCall max c m).result ≠ .ok () := by
+  have hv : ∃ e, validateMessage max m = .err e := by
+    unfold validateMessage
+    by_cases h1 : max ≠ 0 ∧ m.payload.length ≥ max
+    · exact ⟨_, if_pos h1⟩
+    · have h2 : m.qos > 2 := h.resolve_right h1
+      exact ⟨.invalidQoS, by rw [if_neg h1, if_pos h2]⟩
+  obtain ⟨e, he⟩ := hv
+  simp [publishCall, he]
+
+/-- An accepted first transmission is the PUBLISH of that message with DUP = 0 and a fresh or
+    caller-chosen id. -/
+theorem api_publish_written (max c : Nat) (m : Message) (hv : validateMessage max m = .ok ()) :
+    (publishCall max c m).written =
+      (match packPublish { m with id := (publishCall max c m).msgId, dup := false } with
+        | .ok b => b | _ => [])
+    ∧ (m.id ≠ 0 → (publishCall max c m).msgId = m.id) := by
+  unfold publishCall
+  rw [hv]
+  by_cases h0 : m.id = 0
+  · simp only [h0, if_true]
+    constructor
+    · split <;> simp_all
+    · intro h; exact absurd rfl h
+  · simp only [h0, if_false]
+    constructor
+    · split <;> simp_all
+    · intro _; split <;> rfl
+
+-- non-vacuity: id 0 with counter 41 gets the fresh id 42; QoS 3 is refused with nothing written
+example : (publishCall 0 41 { topic := [0x61], id := 0, qos := 1, retain := false, dup := true,
+                              payload := [9] }).written = [0x32, 6, 0, 1, 0x61, 0, 42, 9] := by decide
+example : (publishCall 0 41 { topic := [0x61], id := 0, qos := 3, retain := false, dup := true,
+                              payload := [9] }).written = [] := by decide
+example : validateMessage 0 { topic := [0x61], id := 0, qos := 1, retain := false, dup := true,
+                              payload := [9] } = .ok () := by decide
 
 end Mqtt.C05
